@@ -65,6 +65,11 @@ Definition euler_explicit_A (x : Vec) : Vec :=
 Definition euler_explicit_lhs (x : Vec) : Vec :=
   vadd (vadd (K (G euler_explicit_ev_ut x)) (C (G euler_explicit_ev_vt x))) (M ((fun y : Vec => y) x)).
 
+(* the matrix assembled in _Solver_Apply_Dirichlet (generated euler_explicit_sysop) is this weighted sum *)
+Theorem euler_explicit_sysop_is_weighted_sum : forall x y i,
+  (G euler_explicit_sysop y) x i = euler_explicit_A x i.
+Proof. unfold euler_explicit_A; vf. Qed.
+
 (* row i of the system minus row i of the right-hand side of _Solver_Apply_Neumann
    = residual of the equation of motion at dof i *)
 Theorem euler_explicit_eom_identity : forall x i,
@@ -76,11 +81,25 @@ Theorem euler_explicit_discrete_eom : forall x i,
   euler_explicit_A x i = G euler_explicit_rhs x i -> euler_explicit_lhs x i = bN i + F i.
 Proof using All. intros x i H. pose proof (euler_explicit_eom_identity x i). lra. Qed.
 
+(* what one step returns: M a^n + C v^n + K u^n = load on every solved (free) dof, a^n being the returned acceleration *)
+Theorem euler_explicit_step_correct : forall x i,
+  euler_explicit_A x i = G euler_explicit_rhs x i ->
+  K u_n i + C v_n i + M (G euler_explicit_up_a x) i = bN i + F i.
+Proof using All.
+  intros x i H. pose proof (euler_explicit_discrete_eom x i H) as E. unfold euler_explicit_lhs, vadd in E.
+  assert (E1 : G euler_explicit_ev_ut x = u_n) by (extensionality j; apply euler_explicit_eval_consistent).
+  assert (E2 : G euler_explicit_ev_vt x = v_n) by (extensionality j; apply euler_explicit_eval_consistent).
+  assert (E3 : G euler_explicit_up_a x = x) by (extensionality j; apply euler_explicit_update_rule).
+  rewrite E1, E2 in E. rewrite E3. lra.
+Qed.
+
 End S_euler_explicit.
 
 Print Assumptions euler_explicit_params_stored.
 Print Assumptions euler_explicit_update_rule.
 Print Assumptions euler_explicit_eval_consistent.
 Print Assumptions euler_explicit_coefs_are_derivatives.
+Print Assumptions euler_explicit_sysop_is_weighted_sum.
 Print Assumptions euler_explicit_eom_identity.
 Print Assumptions euler_explicit_discrete_eom.
+Print Assumptions euler_explicit_step_correct.
